@@ -59,10 +59,16 @@ func (json *SR) DeriveConstants() {
 	json.Es = (json.A2 - json.B2) / json.A2 // e ^ 2
 	json.E = math.Sqrt(json.Es)             // eccentricity
 	if json.Ra {
+		// The sphere with the surface area of the ellipsoid. Everything that
+		// is derived from the ellipsoid follows: with the semi-minor axis and
+		// the eccentricity left as they were, half of the formulas (and the
+		// geocentric conversion of a datum comparison) still worked on the
+		// ellipsoid, and inverse transformations did not undo forward ones.
 		json.A *= 1 - json.Es*(sixth+json.Es*(ra4+json.Es*ra6))
 		json.A2 = json.A * json.A
-		json.B2 = json.B * json.B
-		json.Es = 0
+		json.B, json.B2 = json.A, json.A2
+		json.Es, json.E = 0, 0
+		json.sphere = true
 	}
 	json.Ep2 = (json.A2 - json.B2) / json.B2 // used in geocentric
 	if math.IsNaN(json.K0) {
